@@ -65,6 +65,11 @@ CHECKS["C06"] = ("exploration",
     "5 sparse estimators x GEMINIs x alpha x M x {no groups, ALL 15 set partitions of 4 features, partial lists} x batch size x dynamic x {fit, path}: after every optimiser step the weights left by _update_weights must be a minimiser of the C05 reference problem with threshold alpha*optimiser.learning_rate applied to the post-step snapshot (other blocks untouched); after fit, at every validation call of the path and after restoration get_selection must equal the exactly-non-zero rows, unselected features must be bitwise inert under perturbation (and have zero first-layer rows), groups must be all-in/all-out and groups_ the declared list completed by singletons.",
     "d=4, n=8; the dynamic empty-selection crash (KF-C07-1) is skipped here and reported by C07.",
     "5/C06")
+CHECKS["C20"] = ("model_checking",
+    "stateless exploration of the random source's answers (all label vectors, all final permutations scripted) on the real generators with a recording RandomState; reference = documented parameter tables and assembly",
+    "A recording/scripted RandomState owns the random source of draw_gmm, multivariate_student_t, gstm, celeux_one, celeux_two: ALL label vectors (K<=3/4, n<=4/5) and ALL n! final permutations (n<=5) are fed as answers; the requests made to the source must carry the documented parameters (sqrt(variance) for d=1, corner means, Celeux tables) and the output must be the documented assembly of the answers (row i is a fresh draw of component y[i], Student-t = loc+sqrt(df/u)z, joint shuffle, linear dependencies). Identical seeds, shapes, label ranges and the rejection menu are checked with the real source; a seeded 6-sigma moment check is a backstop and the arbiter when the request pattern is not recognised.",
+    "numpy's samplers are trusted; Celeux tables typed by hand from the documentation.",
+    "5/C20")
 NOT_APPLICABLE = {}
 
 def main():
